@@ -711,6 +711,11 @@ class PeerConnection(DataConnection):
         :param callback: optional callback that gets called each time a chunk
             of data is received
         """
+        # Nothing (left) to receive: do not wait for data the peer will never
+        # send (empty file or a file that was already fully received)
+        if filesize <= 0:
+            return
+
         bytes_received = 0
         while True:
             bytes_to_read = await self.download_rate_limiter.take_tokens()
